@@ -28,8 +28,30 @@ HARNESSES = [
     LIN("div_2", 8, 3, (0, 1)),
     LIN("shift_digits", 6, 3, (0,), extra={"VF_SH": 1}),
 ]
+def MUL(name, op, sizes, tier_of):
+    cases = []
+    for (ua, ub, al) in sizes:
+        cases.append(dict(name="a%d_b%d_al%d" % (ua, ub, al), tier=tier_of(ua, ub),
+                          defs={"VF_OP": op, "VF_UA": ua, "VF_UB": ub, "VF_ALIAS": al, "VF_MUL_UF": None}))
+    return dict(
+        name=name, src="mul_sqr.c", checks=COMMON["MEMCHECKS"],
+        functions=["pstm_mul_comba", "pstm_mul_comba_gen", "pstm_sqr_comba", "pstm_sqr_comba_gen", "pstm_clamp",
+                   "asm kernels MULADD / SQRADD / SQRADD2 / SQRADDSC / SQRADDAC / SQRADDDB (x86-64, via asm2c)"],
+        sources=["crypto/math/pstm_mul_comba.c", "crypto/math/pstm_sqr_comba.c", "crypto/math/pstm.c"],
+        assumptions=["mul_sqr: the 64x64->128 product of mulq is an uninterpreted symmetric function shared by implementation and schoolbook reference (structural exactness; sound for the real product); inline assembly translated by vf/asm2c.py (mov/mul/add/adc/xor with explicit carry flag); operands <= 3 digits (thorough: 4), capacity 8, scratch buffer supplied by the caller"],
+        unwind=12,
+        cases=cases,
+    )
+
+
+_mul_sizes = [(ua, ub, al) for ua in range(0, 4) for ub in range(0, 4) for al in (0, 1, 2) if al == 0 or (ua, ub) in ((2, 2), (1, 2), (2, 1))]
+_sqr_sizes = [(ua, 0, al) for ua in range(0, 5) for al in (0, 1) if al == 0 or ua == 2]
+MULH = MUL("mul_comba", 1, _mul_sizes, lambda ua, ub: "quick" if ua * ub <= 4 else "thorough")
+SQRH = MUL("sqr_comba", 2, _sqr_sizes, lambda ua, ub: "quick" if ua <= 2 else "thorough")
+
 for _h in HARNESSES[4:]:  # one-operand operations
     _h["cases"] = [c for c in _h["cases"] if c["defs"]["VF_UB"] == 0]
 # pstm_sub_s precondition |a| >= |b| needs used(b) <= used(a)
 HARNESSES[2]["cases"] = [c for c in HARNESSES[2]["cases"] if c["defs"]["VF_UB"] <= c["defs"]["VF_UA"]]
+HARNESSES += [MULH, SQRH]
 PROPERTY = dict(level="model_checking", explanation="", bounds="", outside="", assumptions=[])
